@@ -76,9 +76,31 @@ pub fn show_item(p: &Payload) -> String {
     }
 }
 
+/// A sink like a plain socket wrapper: it implements `poll_write` only (so a vectored write reaches it one
+/// buffer at a time) and takes at most `max` octets per call.
+struct PlainSink { out: Vec<u8>, max: usize }
+impl tokio::io::AsyncWrite for PlainSink {
+    fn poll_write(mut self: std::pin::Pin<&mut Self>, _cx: &mut std::task::Context<'_>, buf: &[u8]) -> std::task::Poll<std::io::Result<usize>> {
+        let n = buf.len().min(self.max.max(1));
+        self.out.extend_from_slice(&buf[..n]);
+        std::task::Poll::Ready(Ok(n))
+    }
+    fn poll_flush(self: std::pin::Pin<&mut Self>, _cx: &mut std::task::Context<'_>) -> std::task::Poll<std::io::Result<()>> { std::task::Poll::Ready(Ok(())) }
+    fn poll_shutdown(self: std::pin::Pin<&mut Self>, _cx: &mut std::task::Context<'_>) -> std::task::Poll<std::io::Result<()>> { std::task::Poll::Ready(Ok(())) }
+}
+
 fn write_pdu(p: &pdu::Payload) -> Vec<u8> {
     let mut out: Vec<u8> = Vec::new();
     run(p.write(&mut out)).unwrap().unwrap();
+    // what reaches the wire must not depend on the kind of sink: a plain one, and one that takes 7 octets at a time
+    for max in [usize::MAX, 7] {
+        let mut sink = PlainSink { out: Vec::new(), max };
+        let ok = matches!(run(p.write(&mut sink)), Some(Ok(())));
+        if !ok || sink.out != out {
+            // make the difference visible to the checker: the octets that actually arrived at this sink
+            return sink.out;
+        }
+    }
     out
 }
 
